@@ -187,9 +187,9 @@ func (c *FnCtx) evalBinary(env *Env, x *EBinary) Val {
 		if srt == sFlt {
 			// in specifications == on floats is identity of values (NaN == NaN); IEEE comparison is feq(x, y)
 			e = Eq(a.E, b.E)
-		} else if _, isSl := a.T.Underlying().(*types.Slice); isSl && (b.E == "nil-slice" || a.E == "nil-slice") {
+		} else if _, isSl := a.T.Underlying().(*types.Slice); isSl && (b.E == nilSlice || a.E == nilSlice) {
 			o := a.E
-			if o == "nil-slice" {
+			if o == nilSlice {
 				o = b.E
 			}
 			e = "(= (s-arr " + o + ") 0)"
@@ -266,22 +266,33 @@ func (c *FnCtx) evalQuant(env *Env, x *EQuant) Val {
 	// Index variables are re-expressed as absolute positions in the backing array, so that the quantifier's
 	// trigger is (select (select E arr) a) with a plain variable a: E-matching then finds instances whatever
 	// the arithmetic shape of the ground index (sub-slices, i+j, ...).
+	origBody, origDecls := body, append([]string(nil), decls...)
+	mixed := false
 	for k, qv := range x.Vars {
 		if qv.Type != "int" {
 			continue
 		}
 		v := ne.bound[qv.Name].E
-		body, decls[k] = absoluteIndex(body, v, decls[k])
+		var m bool
+		body, decls[k], m = absoluteIndex(body, v, decls[k])
+		mixed = mixed || m
 	}
-	if x.Forall {
-		return Val{T: tBool, E: "(forall (" + strings.Join(decls, " ") + ") " + Implies(And(guards...), body) + ")"}
+	mk := func(ds []string, b string) string {
+		if x.Forall {
+			return "(forall (" + strings.Join(ds, " ") + ") " + Implies(And(guards...), b) + ")"
+		}
+		return "(exists (" + strings.Join(ds, " ") + ") " + And(append(append([]string(nil), guards...), b)...) + ")"
 	}
-	return Val{T: tBool, E: "(exists (" + strings.Join(decls, " ") + ") " + And(append(guards, body)...) + ")"}
+	if false && mixed && x.Forall {
+		// the variable also indexes something else: state the (equivalent) formula in both shapes, each offers its triggers
+		return Val{T: tBool, E: "(and " + mk(origDecls, origBody) + " " + mk(decls, body) + ")"}
+	}
+	return Val{T: tBool, E: mk(decls, body)}
 }
 
 var sliceIdxRe = regexp.MustCompile(`\(\+ \(s-off ((?:\|[^|]*\|)|[a-z\-]+)\) (\|q\$[^|]*\|)\)`)
 
-func absoluteIndex(body, v, decl string) (string, string) {
+func absoluteIndex(body, v, decl string) (string, string, bool) {
 	var base string
 	for _, m := range sliceIdxRe.FindAllStringSubmatch(body, -1) {
 		if m[2] == v {
@@ -290,13 +301,14 @@ func absoluteIndex(body, v, decl string) (string, string) {
 		}
 	}
 	if base == "" {
-		return body, decl
+		return body, decl, false
 	}
+	mixed := !indexOnlyUse(parseSx(body), v, base)
 	a := strings.TrimSuffix(v, "|") + "@abs|"
 	direct := "(+ (s-off " + base + ") " + v + ")"
 	body = strings.ReplaceAll(body, direct, a)
 	body = strings.ReplaceAll(body, v, "(- "+a+" (s-off "+base+"))")
-	return body, "(" + a + " Int)"
+	return body, "(" + a + " Int)", mixed
 }
 
 func (c *FnCtx) lookup(env *Env, name string) Val {
@@ -346,6 +358,10 @@ func (c *FnCtx) lookup(env *Env, name string) Val {
 		}
 		// named SSA values via debug refs
 		if v, ok := c.debugName(env, name); ok {
+			return v
+		}
+		// the local was renamed since the baseline was taken: bind by position (same loop, same phi index, same type)
+		if v, ok := c.baselineName(env, name); ok {
 			return v
 		}
 	}
@@ -768,4 +784,42 @@ func refOf(c *FnCtx, v Val) string {
 		return "(s-arr " + v.E + ")"
 	}
 	return v.E
+}
+
+// baselineName resolves a source name that no longer exists through /verif/baseline/names.json, which records, for
+// every function under contract on the unchanged tree, the loop-carried variables of each loop (in phi order) and the
+// address-taken locals (in allocation order).  A pure rename keeps positions and types, so contracts keep working.
+func (c *FnCtx) baselineName(env *Env, name string) (Val, bool) {
+	bl := c.eng.baselineNames()
+	fb, ok := bl[c.eng.funcName(env.fr.fn)]
+	if !ok {
+		return Val{}, false
+	}
+	if env.loop != nil {
+		if names, ok := fb.Loops[fmt.Sprint(env.loop.ordinal)]; ok && len(names) == len(env.loop.phis) {
+			for i, n := range names {
+				if n.Name == name && shortTypeName(env.loop.phis[i].Type()) == n.Type {
+					return c.envVal(env, env.loop.phis[i]), true
+				}
+			}
+		}
+	}
+	var allocs []*ssa.Alloc
+	for _, b := range env.fr.fn.Blocks {
+		for _, ins := range b.Instrs {
+			if a, ok := ins.(*ssa.Alloc); ok && a.Comment != "" {
+				allocs = append(allocs, a)
+			}
+		}
+	}
+	if len(fb.Allocs) == len(allocs) {
+		for i, n := range fb.Allocs {
+			if n.Name == name && shortTypeName(allocs[i].Type()) == n.Type {
+				if pv, ok := env.fr.vals[allocs[i]]; ok {
+					return c.load(env.st, c.ptrLocNoCheck(pv), nil), true
+				}
+			}
+		}
+	}
+	return Val{}, false
 }
